@@ -341,6 +341,39 @@ def c11_fitter_partial_node(f, replay):
 
 
 
+def c01_insert_inside_text(f, replay):
+    """C01 open finding: a replace-around step whose insertion point (`insert`) falls strictly inside a *text* node of its
+    slice, in a node that is complete in the slice: `insert_into` asks `parent.can_replace(index, index, gap content)` at
+    the index of that text child — i.e. tests `before ++ gap ++ [text] ++ after` — but builds
+    `before ++ [text₁] ++ gap ++ [text₂] ++ after`; where the content expression tells the two apart (`image* text*`) the
+    step applies and returns a schema-invalid document.  Upstream `insertInto` has the same test.
+    Class: the violation is an invalid result of a replace-around step whose insertion point lies strictly inside a text
+    node of the slice (walked with the library's own `find_index`)."""
+    if replay.get("kind") not in (None, "invalid-result"):
+        return False
+    st = replay.get("step") or {}
+    if st.get("stepType") != "replaceAround":
+        return False
+    from prosemirror.model import Slice
+    try:
+        sl = Slice.from_json(_schema_of(replay), st.get("slice"))
+    except Exception:  # noqa: BLE001
+        return False
+    content, dist = sl.content, st.get("insert", 0) + sl.open_start
+    for _ in range(64):
+        a = content.find_index(dist)
+        index, offset = a["index"], a["offset"]
+        if offset == dist:
+            return False
+        child = content.maybe_child(index)
+        if child is None:
+            return False
+        if child.is_text:
+            return True
+        content, dist = child.content, dist - offset - 1
+    return False
+
+
 def c04_same_type_mark_order(f, replay):
     """C04 open finding: a mark type that does not exclude itself (`excludes: ""`, e.g. comments with ids) may occur several
     times on one node, ordered by insertion.  Removing one of them and re-adding it (the inverse of the RemoveMarkStep that
